@@ -510,6 +510,7 @@ fn ast_docs(n: usize) -> Vec<String> {
         rich: false,
         short_unwrap: false,
         shared_lines: false,
+        shared_pairs: vec![],
     };
     let mut all: Vec<String> = vec![];
     let d = Delims { ds: "{DS}", de: "{DE}" };
